@@ -69,6 +69,26 @@ let handle kind a =
       with Oracle_miss -> Some "deflate-oracle-miss")
   | "rd" | "rdbig" ->
       Some (fmt_read (reader_read_to_end inflate (bytes_of_hex a.(1))))
+  | "rc" ->
+      (* call-by-call reader over raw bytes, direct path included; the slow-only reader must agree *)
+      let lens = List.map (fun x -> n_of_int (int_of_string x)) (split_on ',' a.(1)) in
+      let fmt st r =
+        let (c, u) = r_virtual_position st in
+        (match r with
+         | Ok d -> "Ok:" ^ hex_of_bytes d
+         | Err e -> "Err:" ^ fmt_err e
+         | Panic -> "Panic")
+        ^ "@" ^ dec_of_n st.rposition ^ "/" ^ dec_of_n c ^ "." ^ dec_of_n u in
+      let rec go st sl = function
+        | [] -> []
+        | n :: ns ->
+            let (st1, r1) = read_gen inflate true st n in
+            let (sl1, r2) = read_gen inflate false sl n in
+            let x = fmt st1 r1 in
+            let x = if x = fmt sl1 r2 then x else x ^ "!slow-differs" in
+            x :: go st1 sl1 ns in
+      let st0 = rinit (bytes_of_hex a.(0)) in
+      Some (String.concat ";" (go st0 st0 lens))
   | "st" ->
       (* the concrete level-0 compressor on an arbitrary-length input *)
       Some (hex_of_bytes (deflate_stored (bytes_of_hex a.(0))))
